@@ -287,6 +287,18 @@ func runStructCase(c sCaseT) sEventT {
 			}
 		})
 	}
+	for i, f := range c.Shape.Fields {
+		if !isTagged(f) || !strings.HasPrefix(f.GoType, "*") || !strings.HasPrefix(f.API, "attr") || f.API != "attr" {
+			continue
+		}
+		// a nil pointer of the field's own type is a value of the field's type
+		try(fmt.Sprintf("setnil:%d:%s", i+1, f.JSON), func() {
+			w.Set(jname(f.JSON), reflect.Zero(shapeGoTypes[f.GoType]).Interface())
+			if got := w.Get(jname(f.JSON)); got != nil && !reflect.ValueOf(got).IsNil() {
+				panic("nil not read back")
+			}
+		})
+	}
 	try("copy", func() { _ = w.Copy() })
 	try("marshal", func() {
 		fields, rd := allFieldsOf(w)
